@@ -148,8 +148,6 @@ class Executor(Engine, ExprMixin, StmtMixin, CallMixin):
 
     def apply_contract(self, st, c, f, args, kwargs, line):
         self.used_contracts.add(c.qual)
-        if c.ghost:
-            raise EngineError('call to %s: contracts with ghost parameters cannot be used at call sites' % c.qual)
         env = self.callee_env(st, c, f, args, kwargs)
         if getattr(self.frame(), 'spec_mode', False) or any(getattr(fr, 'spec_mode', False) for fr in self.frames):
             # inside a specification: only pure (uninterpreted) callees make sense; no effects, no exceptions
@@ -195,9 +193,13 @@ class Executor(Engine, ExprMixin, StmtMixin, CallMixin):
         if c.trusted:
             self.call_log.append(call_rec)
         # exceptional outcomes
+        import re as _re
+
+        def mentions_ghost(expr):
+            return any(_re.search(r'\b%s\b' % _re.escape(g), expr) for g in c.ghost)
         for exname, cond in c.raises.items():
             exc = self.exc_class(exname)
-            if cond == 'maybe':
+            if cond == 'maybe' or mentions_ghost(cond):
                 cnd = fresh('may_raise', BoolS)
             else:
                 # `raises` states when the exception is *permitted*; whether it happens is unknown
@@ -253,6 +255,8 @@ class Executor(Engine, ExprMixin, StmtMixin, CallMixin):
         env2 = dict(env)
         env2['result'] = res
         for name, expr in c.ensures.items():
+            if mentions_ghost(expr):
+                continue      # clauses over the universally quantified ghost index are not instantiated at call sites
             wd, truth = self.eval_spec(st, expr, c, env2, pre)
             self.assume(st, z3.Implies(wd, truth))
             if getattr(self, 'debug_assumed', None) is not None:
